@@ -33,18 +33,20 @@ pub struct World<const D: usize> {
     pub repair_on: bool,
     pub had_removal: bool,
     pub had_flip: bool,
+    /// cell keys reported as removed by earlier flips (stale handles for adversarial calls)
+    pub stale_cells: Vec<delaunay::core::triangulation_data_structure::CellKey>,
 }
 
 pub fn start_empty<const D: usize>(g: usize) -> World<D> {
     let dt = Dt::<D>::with_empty_kernel_and_topology_guarantee(FastKernel::new(), tri::guarantee(g));
-    World { dt, ids: Ids::default(), offered: vec![], removed: vec![], next_data: 100, g, check_on: false, repair_on: true, had_removal: false, had_flip: false }
+    World { dt, ids: Ids::default(), offered: vec![], removed: vec![], next_data: 100, g, check_on: false, repair_on: true, had_removal: false, had_flip: false, stale_cells: vec![] }
 }
 
 pub fn start_built<const D: usize>(pts: &[Vec<f64>], g: usize, rng: &mut Rng) -> Option<World<D>> {
     let vs = tri::make_vertices::<D>(pts, rng);
     match tri::build_fast::<D>(&vs, g, &Opts { order: 3, dedup: 0, simplex: 0, retry: 0 }) {
         Ok(Ok(dt)) => {
-            let mut w = World { dt, ids: Ids::default(), offered: vec![], removed: vec![], next_data: 100 + vs.len() as i32, g, check_on: false, repair_on: true, had_removal: false, had_flip: false };
+            let mut w = World { dt, ids: Ids::default(), offered: vec![], removed: vec![], next_data: 100 + vs.len() as i32, g, check_on: false, repair_on: true, had_removal: false, had_flip: false, stale_cells: vec![] };
             for v in &vs {
                 w.offered.push((v.uuid(), *v.point().coords(), v.data.unwrap_or(0)));
             }
@@ -57,6 +59,31 @@ pub fn start_built<const D: usize>(pts: &[Vec<f64>], g: usize, rng: &mut Rng) ->
 impl<const D: usize> World<D> {
     pub fn live_coords(&self) -> Vec<[f64; D]> {
         self.dt.vertices().map(|(_, v)| *v.point().coords()).collect()
+    }
+    /// every cell as the sorted list of its vertices' small ids
+    pub fn cell_sets(&mut self) -> Vec<Vec<usize>> {
+        let mut out = Vec::new();
+        let cells: Vec<Vec<VertexKey>> = self.dt.cells().map(|(_, c)| c.vertices().to_vec()).collect();
+        for c in cells {
+            let mut v = self.vk_ids(&c);
+            v.sort_unstable();
+            out.push(v);
+        }
+        out.sort();
+        out
+    }
+    pub fn vk_ids(&mut self, vks: &[VertexKey]) -> Vec<usize> {
+        let us: Vec<Option<Uuid>> = vks.iter().map(|k| self.dt.tds().get_vertex_by_key(*k).map(|v| v.uuid())).collect();
+        us.into_iter().map(|u| u.map_or(999_999, |u| self.ids.id(u))).collect()
+    }
+    /// observation lines describing a successful flip for the model: pre cells + R + I
+    pub fn flip_obs(&mut self, pre: &[Vec<usize>], removed_face: &[VertexKey], inserted_face: &[VertexKey], obs: &mut Vec<(String, String)>) {
+        let r = self.vk_ids(removed_face);
+        let i = self.vk_ids(inserted_face);
+        let j = |v: &[usize]| v.iter().map(|x| x.to_string()).collect::<Vec<_>>().join(",");
+        obs.push(("flipR".into(), j(&r)));
+        obs.push(("flipI".into(), j(&i)));
+        obs.push(("pre".into(), pre.iter().map(|c| j(c)).collect::<Vec<_>>().join(";")));
     }
     pub fn live_keys(&self) -> Vec<VertexKey> {
         self.dt.vertices().map(|(k, _)| k).collect()
@@ -281,38 +308,56 @@ impl<const D: usize> World<D> {
         format!("{vp:?}/{rp:?}/{cp:?}").replace(' ', "")
     }
 
-    /// random legal flip through the public Edit API; returns observation list
+    /// one flip attempt through the public Edit API; `mode` selects the handle class:
+    /// 0/1 facet (k=2), 2 ridge (k=3), 3 edge (inverse k=2), 4 triangle (inverse k=3),
+    /// 5 stale / out-of-range handles.  Returns the observation list.
     pub fn do_flip(&mut self, rng: &mut Rng) -> Vec<(String, String)> {
+        let kind = rng.below(6);
+        self.do_flip_kind(kind, None, rng)
+    }
+
+    pub fn do_flip_kind(&mut self, kind: u64, at: Option<(delaunay::core::triangulation_data_structure::CellKey, u8, u8)>, rng: &mut Rng) -> Vec<(String, String)> {
         let mut obs = Vec::new();
         let cks: Vec<_> = self.dt.cells().map(|(k, _)| k).collect();
         if cks.is_empty() {
             return obs;
         }
         let before = fingerprint(self.dt.tds());
+        let pre = self.cell_sets();
         let ncells = self.dt.number_of_cells();
-        let ck = *rng.pick(&cks);
-        let kind = rng.below(5);
+        let (ck, ha, hb) = at.unwrap_or_else(|| {
+            let a = rng.below((D + 1) as u64) as u8;
+            let b = (a + 1 + rng.below(D as u64) as u8) % (D as u8 + 1);
+            (*rng.pick(&cks), a, b)
+        });
         let (name, r, delta): (&str, Result<Result<_, String>, String>, i64) = match kind {
             0 | 1 => {
-                let i = rng.below((D + 1) as u64) as u8;
-                ("k2", catch(|| self.dt.flip_k2(FacetHandle::new(ck, i)).map_err(|e| tri::err_kind(&format!("{e:?}")))), D as i64 - 2)
+                ("k2", catch(|| self.dt.flip_k2(FacetHandle::new(ck, ha)).map_err(|e| tri::err_kind(&format!("{e:?}")))), D as i64 - 2)
             }
             2 => {
-                let a = rng.below((D + 1) as u64) as u8;
-                let b = (a + 1 + rng.below(D as u64) as u8) % (D as u8 + 1);
-                ("k3", catch(|| self.dt.flip_k3(RidgeHandle::new(ck, a, b)).map_err(|e| tri::err_kind(&format!("{e:?}")))), D as i64 - 4)
+                ("k3", catch(|| self.dt.flip_k3(RidgeHandle::new(ck, ha, hb)).map_err(|e| tri::err_kind(&format!("{e:?}")))), D as i64 - 4)
             }
             3 => {
                 let vs: Vec<VertexKey> = self.dt.tds().get_cell(ck).map(|c| c.vertices().to_vec()).unwrap_or_default();
                 if vs.len() < 2 { return obs; }
-                let a = vs[rng.below(vs.len() as u64) as usize];
-                let b = vs[(rng.below(vs.len() as u64 - 1) as usize + 1 + vs.iter().position(|x| *x == a).unwrap()) % vs.len()];
+                let a = vs[ha as usize % vs.len()];
+                let b = vs[hb as usize % vs.len()];
                 ("k2inv", catch(|| self.dt.flip_k2_inverse_from_edge(EdgeKey::new(a, b)).map_err(|e| tri::err_kind(&format!("{e:?}")))), 2 - D as i64)
             }
-            _ => {
+            4 => {
                 let vs: Vec<VertexKey> = self.dt.tds().get_cell(ck).map(|c| c.vertices().to_vec()).unwrap_or_default();
                 if vs.len() < 3 { return obs; }
-                ("k3inv", catch(|| self.dt.flip_k3_inverse_from_triangle(TriangleHandle::new(vs[0], vs[1], vs[2])).map_err(|e| tri::err_kind(&format!("{e:?}")))), 4 - D as i64)
+                let mut pick = vs.clone();
+                rng.shuffle(&mut pick);
+                ("k3inv", catch(|| self.dt.flip_k3_inverse_from_triangle(TriangleHandle::new(pick[0], pick[1], pick[2])).map_err(|e| tri::err_kind(&format!("{e:?}")))), 4 - D as i64)
+            }
+            _ => {
+                // adversarial handles: facet index out of range, or a cell key that no longer exists
+                let stale = self.stale_cells.last().copied();
+                match (stale, rng.chance(1, 2)) {
+                    (Some(sk), true) => ("stale", catch(|| self.dt.flip_k2(FacetHandle::new(sk, ha)).map_err(|e| tri::err_kind(&format!("{e:?}")))), 0),
+                    _ => ("range", catch(|| self.dt.flip_k2(FacetHandle::new(ck, (D + 1 + ha as usize) as u8)).map_err(|e| tri::err_kind(&format!("{e:?}")))), 0),
+                }
             }
         };
         match r {
@@ -324,13 +369,19 @@ impl<const D: usize> World<D> {
             }
             Ok(Ok(info)) => {
                 self.had_flip = true;
+                self.stale_cells.extend(info.removed_cells.iter().copied());
                 obs.push(("outcome".into(), format!("{name}:ok")));
+                if name == "stale" || name == "range" {
+                    obs.push(("unchanged".into(), format!("0 a {name} handle was accepted by flip_k2")));
+                }
                 let na = self.dt.number_of_cells() as i64;
                 let okc = na - ncells as i64 == delta && info.new_cells.len() as i64 - info.removed_cells.len() as i64 == delta;
                 obs.push(("one_added".into(), if okc { "1".into() } else { format!("0 flip {name} changed cell count {ncells}->{na}, FlipInfo removed={} new={} (expected delta {delta})", info.removed_cells.len(), info.new_cells.len()) }));
                 // FlipInfo describes reality: new cells exist, removed cells are gone
                 let desc = info.new_cells.iter().all(|k| self.dt.tds().contains_cell(*k)) && info.removed_cells.iter().all(|k| !self.dt.tds().contains_cell(*k));
                 obs.push(("key_resolves".into(), if desc { "1".into() } else { "0 FlipInfo lists cells that do not match the triangulation".into() }));
+                // NOTE: removed_face_vertices no longer resolve if the move deleted a vertex (inverse k=1)
+                self.flip_obs(&pre, &info.removed_face_vertices, &info.inserted_face_vertices, &mut obs);
             }
         }
         obs
